@@ -186,6 +186,9 @@ func (b *Backoffer) BackoffWithCfgAndMaxSleep(cfg *Config, maxSleepMs int, err e
 	if b.noop {
 		return err
 	}
+	if errKilled := b.CheckKilled(); errKilled != nil {
+		return errKilled
+	}
 	maxBackoffTimeExceeded := (b.totalSleep - b.excludedSleep) >= b.maxSleep
 	maxExcludedTimeExceeded := false
 	if maxLimit, ok := isSleepExcluded[cfg.name]; ok {
